@@ -12,59 +12,60 @@ ID = 'C03'
 CASE_TIMEOUT = None      # impl() runs each program under its own alarm (case['timeout'])
 LEAN_MODULES = ['PybtexModel.Props.C03']
 THEOREMS = {
-    'C03_builtin_short_stack': 'every built-in pops arity(b) raw values first (Python order) and only then looks at them: on a shorter stack it raises BibTeXError(pop from empty stack) whatever the types of the values present',
-    'C03_builtin_plus': 'a b + pushes a+b; fewer than two values -> BibTeXError(pop from empty stack) whatever they are; a non-integer operand -> TypeError (internal), never a default',
-    'C03_builtin_minus': 'a b - pushes a-b (negative results kept); fewer than two values -> BibTeXError whatever they are; with two values present a non-integer -> TypeError',
-    'C03_builtin_concat': 'x y * pushes the concatenation; a missing field is the empty string; fewer than two values -> BibTeXError whatever they are; ill-typed operands -> TypeError',
-    'C03_builtin_plus_mul_same': 'observation on the pinned code: + and * are the same Python operator',
-    'C03_builtin_gt_lt': 'a b > / a b < push 1 or 0 for a>b / a<b on integers (argument order pinned); fewer than two values -> BibTeXError whatever they are; mixed or non-comparable operands -> TypeError',
-    'C03_builtin_gt_lt_str': '< and > on strings compare by code-point lexicographic order',
-    'C03_builtin_eq': 'a b = pushes 1/0 for equal integers or equal strings (missing = ""); integer vs string is 0; like Python == it accepts any two values: function values by their bodies (structural), an object never equals an integer/string, variable objects by their __eq__; fewer than two values -> BibTeXError',
-    'C03_builtin_eq_objects': '== on two variable objects: global variables by value, functions by body, a field / crossref / built-in only with itself, two entry variables of one class raise AttributeError (no _value attribute), different classes unequal',
-    'C03_builtin_assign_global_int': "v 'name := on a global integer variable stores v and changes nothing else; wrong type -> ValueError",
-    'C03_builtin_assign_global_str': "v 'name := on a global string variable stores v (a missing field as such); wrong type -> ValueError",
-    'C03_builtin_assign_entry_int': "v 'name := on an entry integer variable writes the frame of the current entry only",
-    'C03_builtin_assign_entry_str': "v 'name := on an entry string variable (sort.key$, label ...) writes the frame of the current entry only",
-    'C03_builtin_assign_errors': ':= with fewer than two values is a BibTeXError whatever they are; a non-variable top operand or a function/field/built-in target is an AttributeError, never an assignment',
-    'C03_builtin_stack_ops': 'duplicate$ pop$ swap$ skip$ quote$ do what their names say for values of any type; too short stacks are BibTeXErrors whatever the values',
-    'C03_builtin_empty': 'empty$ pushes 1 iff the string is missing, empty or white space only; ill-typed: the integer 0 is falsy and gives 1, every other non-string is an AttributeError',
-    'C03_builtin_missing': 'missing$ pushes 1 exactly for a missing-field value, 0 for every other value',
-    'C03_builtin_chr_to_int': 'chr.to.int$ pushes the code point of a one-character string; ANYTHING else (other length, missing field, integer, function, variable) is a BibTeXError (Python catches the TypeError of ord)',
-    'C03_builtin_int_to_chr': 'int.to.chr$ pushes the character whose code point is n for 0 <= n < 0x110000 outside the surrogate block (the pushed character really has code point n); a surrogate code point (0xD800-0xDFFF: Python gives a lone surrogate) is outside the model and stops it with an internal error marked unmodelled: - never another character; BibTeXError outside 0..0x10FFFF while n fits a C int, OverflowError (internal) beyond; a non-integer is a TypeError',
-    'C03_builtin_int_to_str': 'int.to.str$ pushes the decimal representation; str() of a function/variable object (its repr) is not modelled (internal, marked unmodelled)',
-    'C03_builtin_cite_type_preamble': 'cite$ pushes the current key as spelled in the citation list, type$ the entry type, preamble$ the concatenated preamble',
-    'C03_builtin_write': 'write$ appends its operand to the output buffer and emits nothing; the call is recorded as the event write(x) in the trace of output calls',
-    'C03_builtin_newline': 'newline$ emits wrap(buffer) and "\\n" and clears the buffer; the stack is untouched; the call is recorded as the event newline in the trace of output calls',
-    'C03_builtin_warning_top_stack': 'warning$ reports its operand (an integer as its decimal text; repr of an object unmodelled); top$ pops and prints one value of ANY type; stack$ prints and empties the whole stack top first (object print-outs abstracted to the tag <object>)',
-    'C03_builtin_substring': 's start len substring$ pushes the documented substring (Spec.substring via C12_substring_spec) for all integers; fewer than three values -> BibTeXError whatever they are; non-integer start -> TypeError; start 0 -> "" whatever the other operands; else non-integer len / non-string s -> TypeError',
-    'C03_builtin_text_length': 'text.length$ pushes bibtexLen (C12) or raises the nesting error',
+    'C03_builtin_short_stack': "[model wiring] pins the model's own equation (closed form; tie to builtins.py: the correspondence check): every built-in pops arity(b) raw values first (Python order) and only then looks at them: on a shorter stack it raises BibTeXError(pop from empty stack) whatever the types of the values present",
+    'C03_builtin_plus': "[model wiring] pins the model's own equation (closed form; tie to builtins.py: the correspondence check): a b + pushes a+b; fewer than two values -> BibTeXError(pop from empty stack) whatever they are; a non-integer operand -> TypeError (internal), never a default",
+    'C03_builtin_minus': "[model wiring] pins the model's own equation (closed form; tie to builtins.py: the correspondence check): a b - pushes a-b (negative results kept); fewer than two values -> BibTeXError whatever they are; with two values present a non-integer -> TypeError",
+    'C03_builtin_concat': "[model wiring] pins the model's own equation (closed form; tie to builtins.py: the correspondence check): x y * pushes the concatenation; a missing field is the empty string; fewer than two values -> BibTeXError whatever they are; ill-typed operands -> TypeError",
+    'C03_builtin_plus_mul_same': '[model wiring] (rfl) observation on the pinned code as modelled: + and * are the same Python operator',
+    'C03_builtin_gt_lt': "[model wiring] pins the model's own equation (closed form; tie to builtins.py: the correspondence check): a b > / a b < push 1 or 0 for a>b / a<b on integers (argument order pinned); fewer than two values -> BibTeXError whatever they are; mixed or non-comparable operands -> TypeError",
+    'C03_builtin_gt_lt_str': "[model wiring] pins the model's own equation (closed form; tie to builtins.py: the correspondence check): < and > on strings compare by the model function strLt - that strLt is code-point lexicographic order, a strict total order, is C03_strLt_spec",
+    'C03_builtin_eq': '[model wiring] pins the model\'s own equation (closed form; tie to builtins.py: the correspondence check): a b = pushes 1/0 for equal integers or equal strings (missing = ""); integer vs string is 0; like Python == it accepts any two values: function values by their bodies (structural), an object never equals an integer/string, variable objects by their __eq__; fewer than two values -> BibTeXError',
+    'C03_builtin_eq_objects': '[model wiring] pins the model function objEq (== on two variable objects): global variables by value, functions by body, a field / crossref / built-in only with itself, two entry variables of one class raise AttributeError (no _value attribute), different classes unequal',
+    'C03_builtin_assign_global_int': "[model wiring] pins the model's own equation (closed form; tie to builtins.py: the correspondence check): v 'name := on a global integer variable stores v and changes nothing else; wrong type -> ValueError",
+    'C03_builtin_assign_global_str': "[model wiring] pins the model's own equation (closed form; tie to builtins.py: the correspondence check): v 'name := on a global string variable stores v (a missing field as such); wrong type -> ValueError",
+    'C03_builtin_assign_entry_int': "[model wiring] pins the model's own equation (closed form; tie to builtins.py: the correspondence check): v 'name := on an entry integer variable writes the frame of the current entry only",
+    'C03_builtin_assign_entry_str': "[model wiring] pins the model's own equation (closed form; tie to builtins.py: the correspondence check): v 'name := on an entry string variable (sort.key$, label ...) writes the frame of the current entry only",
+    'C03_builtin_assign_errors': "[model wiring] pins the model's own equation (closed form; tie to builtins.py: the correspondence check): := with fewer than two values is a BibTeXError whatever they are; a non-variable top operand or a function/field/built-in target is an AttributeError, never an assignment",
+    'C03_builtin_stack_ops': "[model wiring] pins the model's own equation (closed form; tie to builtins.py: the correspondence check): duplicate$ pop$ swap$ skip$ quote$ do what their names say for values of any type; too short stacks are BibTeXErrors whatever the values",
+    'C03_builtin_empty': 'empty$ pushes 1 iff the string is Blank (independent spec predicate: missing, empty or white space only) - the equation itself pins the model; ill-typed: the integer 0 is falsy and gives 1, every other non-string is an AttributeError',
+    'C03_builtin_missing': "[model wiring] pins the model's own equation (closed form; tie to builtins.py: the correspondence check): missing$ pushes 1 exactly for a missing-field value, 0 for every other value",
+    'C03_builtin_chr_to_int': "[model wiring] pins the model's own equation (closed form; tie to builtins.py: the correspondence check): chr.to.int$ pushes the code point of a one-character string; ANYTHING else (other length, missing field, integer, function, variable) is a BibTeXError (Python catches the TypeError of ord)",
+    'C03_builtin_int_to_chr': '[model wiring + one fact] int.to.chr$ pushes the character whose code point is n for 0 <= n < 0x110000 outside the surrogate block (the pushed character really has code point n); a surrogate code point (0xD800-0xDFFF: Python gives a lone surrogate) is outside the model and stops it with an internal error marked unmodelled: - never another character; BibTeXError outside 0..0x10FFFF while n fits a C int, OverflowError (internal) beyond; a non-integer is a TypeError',
+    'C03_builtin_int_to_str': "[model wiring] pins the model's own equation (closed form; tie to builtins.py: the correspondence check): int.to.str$ pushes the decimal representation; str() of a function/variable object (its repr) is not modelled (internal, marked unmodelled)",
+    'C03_builtin_cite_type_preamble': "[model wiring] pins the model's own equation (closed form; tie to builtins.py: the correspondence check): cite$ pushes the current key as spelled in the citation list, type$ the entry type, preamble$ the concatenated preamble",
+    'C03_builtin_write': "[model wiring] pins the model's own equation (closed form; tie to builtins.py: the correspondence check): write$ appends its operand to the output buffer and emits nothing; the call is recorded as the event write(x) in the trace of output calls",
+    'C03_builtin_newline': '[model wiring] pins the model\'s own equation (closed form; tie to builtins.py: the correspondence check): newline$ emits wrap(buffer) and "\\n" and clears the buffer; the stack is untouched; the call is recorded as the event newline in the trace of output calls',
+    'C03_builtin_warning_top_stack': "[model wiring] pins the model's own equation (closed form; tie to builtins.py: the correspondence check): warning$ reports its operand (an integer as its decimal text; repr of an object unmodelled); top$ pops and prints one value of ANY type; stack$ prints and empties the whole stack top first (object print-outs abstracted to the tag <object>)",
+    'C03_builtin_substring': 's start len substring$ pushes Spec.substring s start len (the independent reference of C12, via C12_substring_spec) for all integers; the error / ill-typed conjuncts pin the model: fewer than three values -> BibTeXError whatever they are; non-integer start -> TypeError; start 0 -> "" whatever the other operands; else non-integer len / non-string s -> TypeError',
+    'C03_builtin_text_length': '[model wiring] text.length$ pushes the MODEL function bibtexLen or raises the nesting error; the real claim is C03_builtin_text_length_spec',
     'C03_builtin_text_length_spec': 'with C12_len_spec: text.length$ pushes the reference text length (braces not counted, special character once)',
-    'C03_builtin_text_prefix': 's n text.prefix$ pushes bibtexPrefix s n (C12); fewer than two values -> BibTeXError whatever they are; non-integer n -> TypeError; n <= 0 -> "" whatever s; n > 0 and non-string s -> TypeError',
+    'C03_builtin_text_prefix': '[model wiring] s n text.prefix$ pushes the MODEL function bibtexPrefix s n (real claim: C03_builtin_text_prefix_spec); fewer than two values -> BibTeXError whatever they are; non-integer n -> TypeError; n <= 0 -> "" whatever s; n > 0 and non-string s -> TypeError',
     'C03_builtin_text_prefix_spec': 'with C12_prefix_len / C12_prefix_nonpos: the pushed prefix has text length min(n, len) for n >= 0 and is empty for n <= 0',
-    'C03_builtin_purify_width_num_names': 'purify$ / width$ / num.names$ push bibtexPurify / bibtexWidth over the regenerated table / the number of " and "-separated names',
-    'C03_builtin_purify_spec': 'with C12: a purified string consists of letters, digits and blanks and purify$ is idempotent on it',
-    'C03_builtin_change_case': 'change.case$ selects the conversion by the lower-cased first character of the mode (t, l, u); empty mode (also the integer 0) / other letter are BibTeXErrors raised before the string is used; other integers / objects as mode and a non-string s under a valid mode are TypeErrors; fewer than two values -> BibTeXError',
-    'C03_builtin_change_case_spec': 'with C12_case_letters: change.case$ changes nothing but the case of letters (closed special characters)',
-    'C03_builtin_add_period': 'add.period$ appends "." unless the string is empty or its last non-"}" character is . ? ! (three shapes covering every string); a missing field stays missing; ill-typed: the integer 0 is pushed back, every other non-string is an AttributeError',
-    'C03_builtin_format_name': 'names n fmt format.name$ formats the n-th name with formatName (C11); n outside 1..count warns and pushes "" (for n < 1 before names and fmt are used: integer names in decimal, repr of an object unmodelled; beyond the count the format is unused); malformed format is a syntax error; non-integer n, non-string names (n >= 1) or format (n in range) are TypeErrors; fewer than three values -> BibTeXError',
+    'C03_builtin_purify_width_num_names': '[model wiring] purify$ / width$ / num.names$ push the MODEL functions bibtexPurify / bibtexWidthStd (regenerated width table) / length of splitNameList: no independent value spec - purify$: only C03_builtin_purify_spec; num.names$: C03_builtin_num_names_spec; width$: correspondence check only',
+    'C03_builtin_purify_spec': 'PARTIAL, with C12: a purified string consists of letters, digits and blanks and purify$ is idempotent on it - the VALUE of purify$ is not specified independently (model function bibtexPurify; correspondence check)',
+    'C03_builtin_num_names_spec': 'with the C01 characterisation of split_name_list (C01_split_names_spec): for a list written as n+1 names joined by n separators (any spelling of " and "; each name non-empty, brace-balanced, without a separator match at brace level 0) num.names$ pushes n+1',
+    'C03_builtin_change_case': '[model wiring] change.case$ = the MODEL function changeCase in the mode selected by the lower-cased first character (t, l, u) - real claim: C03_builtin_change_case_spec; empty mode (also the integer 0) / other letter are BibTeXErrors raised before the string is used; other integers / objects as mode, a non-string s under a valid mode: TypeError; fewer than two values -> BibTeXError',
+    'C03_builtin_change_case_spec': 'with C12_case_letters, ONLY for strings whose special characters are closed (specialsClosed): change.case$ changes nothing but the case of letters and keeps the length',
+    'C03_builtin_add_period': 'add.period$: the first two conjuncts pin the model (pushes the model function addPeriod s; a missing field stays missing); the next three characterise addPeriod independently: "." appended unless the string is empty or its last non-"}" character is . ? ! (three shapes covering every string); ill-typed: the integer 0 is pushed back, every other non-string is an AttributeError',
+    'C03_builtin_format_name': '[model wiring] names n fmt format.name$ formats the n-th name (of splitNameList) with the MODEL function formatName of C11 - real claim: C03_builtin_format_name_spec; n outside 1..count warns and pushes "" (n < 1: before names and fmt are used); malformed format is a syntax error; non-integer n, non-string names (n >= 1) or format (n in range) are TypeErrors; fewer than three values -> BibTeXError',
     'C03_builtin_format_name_spec': 'with C11_matches_spec: the pushed string is the outcome of the reference rule Spec.formatName',
     'C03_builtin_newline_short': 'with C19_short_identity: a buffered text of at most 79 characters is emitted as one right-stripped line',
-    'C03_builtin_call_type': 'call.type$ executes the function named like the entry type; undefined type: warning text pinned, then default.type if defined, else nothing',
-    'C03_builtin_table': 'summary: whenever the documented table Doc (Spec/BstSem.lean) of the stack-only built-ins says b turns operands args into res, a call on a stack starting with args replaces them by res and changes nothing else',
-    'C03_if': 'p f2 f1 if$ executes f2 if p > 0 else f1 on the stack below the three operands (only the chosen operand is executed); fewer than three values -> BibTeXError whatever they are; non-integer p / non-executable chosen operand -> internal',
-    'C03_while_unfold': 'while$ = execute p; pop n; n <= 0 stop, else execute f and repeat: one-step equation with fuel and the fuel-free unfolding law; fewer than two values -> BibTeXError whatever they are',
-    'C03_fuel_mono': 'a finished run (state or non-fuel error) is unchanged by more fuel, for all six mutually recursive functions',
-    'C03_deterministic': 'two finished runs of the same code from the same state agree, whatever the fuel',
-    'C03_exec_literals': 'literals push themselves, { } pushes the function, \'name pushes the variable (undefined -> BibTeXError), a name is executed (undefined -> BibTeXError); bodies run left to right',
-    'C03_exec_variable': 'executing a global variable pushes its value, an entry variable the value in the current entry frame (default 0 / ""), a field its value or a missing field, a function runs its body',
-    'C03_iterate_order': 'ITERATE {f} is the left fold of "make the entry current; execute f; no entry is current" over the citation list in order',
-    'C03_reverse_order': 'REVERSE {f} is the same fold over the reversed citation list',
+    'C03_builtin_call_type': "[model wiring] pins the model's own equation (closed form; tie to builtins.py: the correspondence check): call.type$ executes the function named like the entry type; undefined type: warning text pinned, then default.type if defined, else nothing",
+    'C03_builtin_table': '[model wiring] summary table: Doc (Spec/BstSem.lean) restates the equations of the C03_builtin_* theorems for the stack-only built-ins (and reuses the model functions bibtexPurify / bibtexWidthStd / splitNameList in its rows): a call on a stack starting with args replaces them by res and changes nothing else',
+    'C03_if': "[model wiring] pins the model's own equation (closed form; tie to builtins.py: the correspondence check): p f2 f1 if$ executes f2 if p > 0 else f1 on the stack below the three operands (only the chosen operand is executed); fewer than three values -> BibTeXError whatever they are; non-integer p / non-executable chosen operand -> internal",
+    'C03_while_unfold': 'while$: conjuncts 1-2 are [model wiring] (the one-step equations of the fuelled whileLoop, by unfolding); conjuncts 3-4 are the fuel-free unfolding law on the exists-fuel judgements: execute p; pop n; n <= 0 stop, else execute f and repeat; fewer than two values -> BibTeXError whatever they are. No termination claim',
+    'C03_fuel_mono': 'a finished run (state or non-fuel error) is unchanged by more fuel, for all six mutually recursive functions; all semantics is fuel-indexed: termination / sufficiency of the fuel is NOT claimed',
+    'C03_deterministic': 'two finished runs of the same code from the same state agree, whatever the fuel: the Eval judgements are "exists fuel with result ok", so conjuncts 1-5 are fuel monotonicity (C03_fuel_mono) restated for them; no termination claim',
+    'C03_exec_literals': "[model wiring] pins the model's own equation (closed form; tie to interpreter.py: the correspondence check): literals push themselves, { } pushes the function, 'name pushes the variable (undefined -> BibTeXError), a name is executed (undefined -> BibTeXError); bodies run left to right",
+    'C03_exec_variable': '[model wiring] pins the model\'s own equation (closed form; tie to interpreter.py: the correspondence check): executing a global variable pushes its value, an entry variable the value in the current entry frame (default 0 / ""), a field its value or a missing field, a function runs its body',
+    'C03_iterate_order': 'for a state with Ready s (database present, every citation in it: what READ establishes, C03_ready) and f bound in the variable table: ITERATE {f} is the left fold (independent spec foldEntries) of "make the entry current; execute f; no entry is current" over the citation list in order',
+    'C03_reverse_order': 'under the same two hypotheses (Ready s, f bound): REVERSE {f} is the same fold over the reversed citation list',
     'C03_ready': 'READ establishes "database present and every citation in it" (missing entries reported and dropped) without touching variables, entry variables or output; every command preserves it',
-    'C03_execute': 'EXECUTE {f} executes f once',
+    'C03_execute': "[model wiring] pins the model's own equation (closed form; tie to interpreter.py: the correspondence check): EXECUTE {f} executes f once",
     'C03_execute_outside_entry': 'no entry is current outside ITERATE / REVERSE: a run starts without one and no command leaves one behind, so EXECUTE {f} runs f outside any entry, where cite$ / type$ / call.type$ / fields / crossref / reading or assigning an entry variable stop with a non-pybtex error - never with the data of some entry (follows the code with the proposed fix C03-1)',
-    'C03_read_spec': 'READ: the reader starts with the MACRO table as initial macros, no person fields and the citations as wanted entries; the database is convertDb of what the reader delivers (the .bib texts parsed one after the other by one reader, or the entries of a bib_format reader); citations = removeMissing (addExtraCitations citations min_crossrefs); preamble$ = the concatenated @preamble texts; reader problems, bad cross-references and missing entries are appended to the reports; nothing else changes',
+    'C03_read_spec': "[model wiring] READ re-expressed through the model's own helpers (readerStart / readerResult = the model's readAll / parseLoop, convertDb, addExtraCitations, removeMissing; conjuncts 1-3 are rfl): reader starts with the MACRO table, no person fields, citations as wanted entries; nothing but db / citations / preamble / reports changes. The independent claim about READ is C03_read_order",
     'C03_read_order': 'READ linked to C05 / C14: the database after READ is well formed (DbWF, the hypothesis of the C05 / C14 theorems) whatever the reader delivered; the citation list (iteration order) is Spec.present of Spec.resolved (cited keys in order, * in database order, cross-referenced parents at the threshold, missing keys dropped); exactly the dangling cross-references and missing keys are reported; every listed key has a well-formed entry stored under it',
-    'C03_exec_crossref': 'executing crossref pushes the key of the cross-referenced entry as stored in the database, a missing-field value when the entry has no crossref field or the target is not in the database',
+    'C03_exec_crossref': "[model wiring] pins the model's own equation (closed form; tie to interpreter.py: the correspondence check): executing crossref pushes the key of the cross-referenced entry as stored in the database, a missing-field value when the entry has no crossref field or the target is not in the database",
     'C03_trace': 'the trace of output calls: only write$ / newline$ append to it (each exactly its own event), a command other than EXECUTE / ITERATE / REVERSE touches neither trace nor lines nor buffer, and whatever is executed, the events it appends to the trace are what takes (lines, buffer) from the state before to the state after',
     'C03_strLt_spec': 'the string comparison is code-point lexicographic order, a strict total order (irreflexive, transitive, trichotomous)',
     'C03_sort': 'after SORT the citation list is a permutation of the old one, non-decreasing in sort.key$ (never assigned = ""), stable, nothing else changes; SORT succeeds when all assigned keys are strings',
@@ -77,9 +78,9 @@ THEOREMS = {
     'C03_declare_entry': 'ENTRY declares exactly its fields, crossref, its integer and its string entry variables (all other names unchanged, nothing else changes) when the names are fresh and distinct up to case; otherwise BibTeXError',
     'C03_declare_function': 'FUNCTION binds a fresh name to its body; redeclaring any name is a BibTeXError',
     'C03_declare_globals': 'INTEGERS / STRINGS bind each listed name to a fresh global 0 / "" (overwriting an existing binding, as the pinned code does); all other names unchanged',
-    'C03_declare_macro': 'MACRO defines the macro (last definition wins) and changes nothing else',
-    'C03_output': 'the .bbl text of run is the concatenation of the emitted lines = render of the trace of the run, i.e. of the list of write$ / newline$ calls executed, in order (not an existentially quantified event list): each newline$ contributes wrap(text written since the previous newline$) + "\\n", text after the last newline$ is discarded',
-    'C03_output_render': 'unfolding of the event semantics: write accumulates, newline emits wrap(pending) + "\\n", events extend the emitted text',
+    'C03_declare_macro': 'MACRO defines the macro (pins the model: dset on the macro table) and changes nothing else; last definition wins (get/set laws of the table)',
+    'C03_output': 'for a run that ends ok within the given fuel: the .bbl text is the concatenation of the emitted lines = render (independent fold) of the trace of the run, i.e. of the write$ / newline$ calls executed, in order: each newline$ contributes wrap(text written since the previous newline$) + "\\n", text after the last newline$ is discarded; the trace is a ghost component the model writes itself (tied to lines / buffer by C03_trace)',
+    'C03_output_render': 'facts about the SPEC functions render / emit alone (unfolding of the event semantics): write accumulates, newline emits wrap(pending) + "\\n", events extend the emitted text',
     'C03_output_only_write_newline': 'no built-in other than write$ / newline$ (and the three that execute code) touches the emitted lines or the buffer',
 }
 RULE = ('well-typed straight-line programs: every sequence of up to the tier length of typed units (literals from the operand pool, '
@@ -1036,6 +1037,7 @@ def gen_cases(tier, rng, info):
 
 LEVEL_TEXT = ('Machine-checked proof (Lean 4) about an executable model of the BST interpreter (pybtex/bibtex/interpreter.py + builtins.py) for EVERY '
               'state, stack content and program: one theorem per built-in (all 37) giving the exact stack / output / state change on the documented '
+              '[these equations are readable closed-form PINS of the model, marked [model wiring] in the theorem list: no separately written semantics is refined by them] '
               'operand shapes with frame conditions; BibTeXError(pop from empty stack) on every stack shorter than the number of values the built-in '
               'pops, whatever their types (the model pops raw values in Python\'s order and inspects them afterwards); on ill-typed operands what the '
               'pinned Python code does (TypeError/AttributeError = internal error, or the ordinary result Python computes), never a silent default; '
@@ -1067,4 +1069,14 @@ LEVEL_NOTE = ('Trusted: Lean kernel; axioms propext/Classical.choice/Quot.sound 
               'BibTeXError of the other out-of-range integers; int.to.chr$ of a surrogate code point (Python returns a lone surrogate; marked '
               'unmodelled, never another character). Observations, not violations of the property as stated: the pinned code implements + '
               'and * by one Python operator (C03_builtin_plus_mul_same) and INTEGERS / STRINGS silently overwrite an existing binding '
-              '(C03_declare_globals).')
+              '(C03_declare_globals). WHAT KIND OF THEOREM: the built-in equations (C03_builtin_*, C03_if, C03_exec_literals, C03_exec_variable, '
+              'C03_exec_crossref, C03_execute, C03_while_unfold 1-2, C03_builtin_table and its Doc relation) and C03_read_spec restate the defining equations '
+              'of Model/Interp.lean in a readable closed form (operand order, arity, error class, frame condition): they pin the model, their tie to '
+              'builtins.py / interpreter.py is the differential check. Independent specifications exist for: string comparison (LexLt), SORT (SortedBy, '
+              'StableWrt, uniqueness), ITERATE / REVERSE (foldEntries), output (render / emit), scoping (Frame, CmdFrame), declarations (Declares, Fresh), '
+              'empty$ (Blank), the add.period$ shapes, the citation order after READ (C03_read_order -> C05 Spec.resolved / present / dangling / missing), and '
+              'through C12 / C11 / C19 / C01 for substring$, text.length$, text.prefix$ (length), purify$ (character range and idempotence ONLY), change.case$ '
+              '(closed special characters only), format.name$, newline$ on short lines, num.names$ on well-formed lists; width$ and the VALUE of purify$ are '
+              'specified by model functions only. All semantics is FUEL-INDEXED (the Eval judgements are "some fuel gives ok"): termination and sufficiency of '
+              'the fuel are not claimed (C03_output assumes the run ends ok); C03_iterate_order / C03_reverse_order assume Ready s (established by READ: '
+              'C03_ready) and a bound function name.')
